@@ -4,7 +4,7 @@ from vstatic import terms as T
 from vstatic.terms import sym, Term, Atom, lift, pretty
 from vstatic.effects import summaries
 from vstatic.argbind import resolve_callee
-from .common import B, agree_ref, selfattr, RECORD_NO_INLINE, dominates, component_resets, resets_all_pairs, unordered_sweep
+from .common import B, agree_ref, selfattr, RECORD_NO_INLINE, dominates, component_resets, resets_all_pairs, unordered_sweep, prog_functions
 
 REF_COPY = '''
 def copy(self):
@@ -45,6 +45,22 @@ def attr_mutations(prog, attr):
                                                                       'clear', 'sort', 'update', 'reverse'):
                 hits.append((fi, n))
     return hits
+
+
+def _waterfall_value(t):
+    """the term denotes a blimpy Waterfall: the `waterfall` parameter or a `.waterfall` attribute (possibly conditional)"""
+    a = t.single_atom()
+    if a is None:
+        return False
+    if a.kind == 'sym':
+        return a.args[0] == 'waterfall'
+    if a.kind == 'attr':
+        return a.args[1] == 'waterfall'
+    if a.kind == 'ite':
+        return _waterfall_value(a.args[1]) or _waterfall_value(a.args[2])
+    if a.kind in ('after', 'loopvar'):
+        return str(a.args[0]).endswith('.waterfall')
+    return False
 
 
 def run(ctx):
@@ -311,6 +327,36 @@ def run(ctx):
     ctx.ob('EFFECTS', '__getstate__ does not modify the frame (works on a copy of __dict__)', gs, not s['mutates'],
            {'mutates': [k[1] for k in s['mutates']]}, node=gs.node, construct='__getstate__ effects')
     agree_ref(ctx, gs, REF_GETSTATE, '__getstate__: copy of __dict__ without the Waterfall', what=('return',), expand=False)
+    # A Waterfall read from an .h5 file carries an open h5py handle (container.h5) that cannot be deep-copied: every
+    # deep copy of a Waterfall value must come after `del <that waterfall>.container.h5` (tolerating its absence).
+    n_dc = 0
+    for fshort in sorted(f.short for f in prog_functions(ctx) if f.module.name == 'setigen.frame'):
+        f2 = ctx.func(fshort)
+        if not any(isinstance(n, ast.Call) and ast.unparse(n.func).endswith('deepcopy') for n in ast.walk(f2.node)):
+            continue
+        r2, I2 = ctx.run(f2, expand=False, max_depth=2)
+        for e in I2.events:
+            if not (e.kind == 'call' and e.data.get('name') == 'copy.deepcopy' and e.data['args'] and e.func.short == f2.short):
+                continue
+            arg = e.data['args'][0]
+            if not _waterfall_value(arg):
+                continue
+            n_dc += 1
+            def attr_of(t, name):
+                a = t.single_atom()
+                if a is not None and a.kind == 'ite':
+                    return T.mk_ite(a.args[0], attr_of(a.args[1], name), attr_of(a.args[2], name))
+                return T.mk_attr(t, name)
+            cont = attr_of(arg, 'container')
+            dels = [d for d in I2.events if d.kind == 'delete' and d.data.get('target') == 'attr' and d.data.get('key') == 'h5'
+                    and d.seq < e.seq and d.data['base'].key == cont.key]
+            ok = bool(dels) and any(t[1] == 'body' for t in dels[0].tryctx) and \
+                all(c.key in {x.key for x in e.pc} or 'exc(' in c.key or 'partial(' in c.key for c in dels[0].pc)
+            ctx.ob('MUSTPASS', 'a Waterfall is deep-copied only after its unpicklable h5py handle (container.h5) has been dropped '
+                   '(frames loaded from .h5 files can be copied)', f2, ok,
+                   {'deepcopy_of': pretty(arg)[:120], 'deletions_before': [d.text() for d in dels]}, node=e.node,
+                   construct=f'{f2.name}: copy.deepcopy(<waterfall>)')
+    ctx.require(n_dc >= 2, 'fewer than two deep copies of a Waterfall found in frame.py (from_data / copy expected): vacuity guard')
     agree_ref(ctx, ctx.func('frame.Frame.copy'), REF_COPY, 'copy(): deep copy plus a deep copy of the refreshed Waterfall',
               what=('return', 'attrstores', 'calls'), expand=False, max_depth=0)
 
